@@ -47,7 +47,14 @@ pub fn cvc5_safe(r: &Ref) -> bool {
                 *not = true;
                 has(x, not, and)
             }
-            Ref::Loop(x, _, _) => has(x, not, and),
+            Ref::Loop(x, lo, hi) => {
+                // cvc5 unrolls counting loops: bounds beyond a few dozen only ever end in its time limit
+                if *lo > 40 || hi.map_or(false, |h| h > 40) {
+                    *not = true;
+                    *and = true;
+                }
+                has(x, not, and)
+            }
         }
     }
     let (mut n, mut a) = (false, false);
